@@ -104,7 +104,8 @@ def t3_case(args):
 
 
 SHAPES = ["out.txt", "./out.txt", "new/out.txt", "n1/n2/n3/out.txt", "a.b/c.d.txt", "../keep0.out", "../sib/out.txt", "@ABS@/out.txt",
-          "..b/out.txt", "__parent__/out.txt", "__fsroot__/o.txt", "x__parent__y.txt", "new/__fsroot__", "o-1/x_y/A.B-c_d", ".hidden/out", "../sib/new/out.txt"]
+          "..b/out.txt", "__parent__/out.txt", "__fsroot__/o.txt", "x__parent__y.txt", "new/__fsroot__", "o-1/x_y/A.B-c_d", ".hidden/out", "../sib/new/out.txt",
+          "./../sib/out2.txt", "./.cache/out.txt", "./..hid/out.txt", "./out3.txt"]
 NONCANON = ["a../out.txt", "x/../y/out.txt", "new/a../o.txt"]
 
 
